@@ -26,6 +26,9 @@ type aliasTable struct {
 	m map[fieldKey]ssa.Value
 	// fields of an owner that hold a writer built around its file (`br: bufio.NewWriterSize(f, n)`)
 	wrap map[wrapKey]bool
+	// parameters of a delegate that is handed the file together with a writer stacked on it
+	// (`flushSyncClose(br, f)`): the writer parameter -> the file parameter
+	pwrap map[*ssa.Parameter]*ssa.Parameter
 }
 
 type wrapKey struct {
@@ -102,10 +105,39 @@ func setAlias(prog *ssa.Program, base ssa.Value, field int, rep ssa.Value) {
 	defer aliasMu.Unlock()
 	t := aliasTables[prog]
 	if t == nil {
-		t = &aliasTable{m: map[fieldKey]ssa.Value{}, wrap: map[wrapKey]bool{}}
+		t = &aliasTable{m: map[fieldKey]ssa.Value{}, wrap: map[wrapKey]bool{}, pwrap: map[*ssa.Parameter]*ssa.Parameter{}}
 		aliasTables[prog] = t
 	}
 	t.m[fieldKey{rootNoAlias(base), field}] = rep
+}
+
+// setParamWrap records that, in a delegate, parameter w is a writer stacked on the file parameter f.
+func setParamWrap(prog *ssa.Program, w, f *ssa.Parameter) {
+	aliasMu.Lock()
+	defer aliasMu.Unlock()
+	t := aliasTables[prog]
+	if t == nil {
+		t = &aliasTable{m: map[fieldKey]ssa.Value{}, wrap: map[wrapKey]bool{}, pwrap: map[*ssa.Parameter]*ssa.Parameter{}}
+		aliasTables[prog] = t
+	}
+	if t.pwrap == nil {
+		t.pwrap = map[*ssa.Parameter]*ssa.Parameter{}
+	}
+	t.pwrap[w] = f
+}
+
+func paramWraps(w *ssa.Parameter) *ssa.Parameter {
+	fn := w.Parent()
+	if fn == nil {
+		return nil
+	}
+	aliasMu.RLock()
+	defer aliasMu.RUnlock()
+	t := aliasTables[fn.Prog]
+	if t == nil {
+		return nil
+	}
+	return t.pwrap[w]
 }
 
 func clearAliases(prog *ssa.Program) {
